@@ -122,6 +122,9 @@ func isViolation(p *Property, v Verdict) (viol bool, inconclusive bool) {
 		return false, false
 	case "violation", "crash":
 		return true, false
+	case "artefact":
+		// fake-clock artefact (see worker.go): neither a violation nor a reason to distrust the run
+		return false, false
 	case "deadlock", "leak", "hang":
 		if p.LivenessClaimed {
 			return true, false
